@@ -589,7 +589,44 @@ def check_linkable_requires_one_global_dimension(ctx, rule: str) -> None:
                 trace.append(f"set `{arg.id}`: {len(inits)} initialisation(s), {len(accs)} accumulation(s) inside {len(loops)} loop(s) over the data")
             elif isinstance(arg, ast.SetComp) and len(arg.generators) >= 2 and data_p in norm(arg.generators[0].iter):
                 ok = True
+    # where the dimension names come from: the data variable itself (results add variables with further dimensions to the dataset)
+    src_ok = False
+    for n in ast.walk(fi.node):
+        if isinstance(n, (ast.SetComp, ast.ListComp, ast.GeneratorExp)):
+            for g in n.generators:
+                t = norm(g.iter)
+                if t.endswith(".data.coords") or t.endswith(".data.dims"):
+                    src_ok = True
+    ctx.ob(rule, "DatasetGroup.is_linkable/dimensions-of-the-data-variable", src_ok, fi, rets[-1] if rets else fi.node,
+           "the global dimension is read from the `data` variable (dataset.data.coords): dataset-level dims grow when a result adds "
+           "singular vectors etc. to the caller's dataset, so a second optimisation of the same scheme would decide differently",
+           construct=short(rets[-1], 100) if rets else "def is_linkable")
     ctx.ob(rule, "DatasetGroup.is_linkable/one-common-global-dimension", ok, fi, rets[-1] if rets else fi.node,
            "datasets are linked automatically only when the union of their non-model dimensions over *all* datasets is a single name; "
            "a per-dataset test links (time, spectral) with (time, pixel) on coinciding numbers", trace,
            construct=short(rets[-1], 100) if rets else "def is_linkable")
+
+
+def check_refusal_not_swallowed(ctx, rule: str, error: str, constructors: tuple[str, ...], prefixes: tuple[str, ...]) -> None:
+    """The refusal `error` raised while constructing one of `constructors` reaches the caller: no handler catches it."""
+    n = 0
+    bad = []
+    for fi in ctx.repo.functions.values():
+        if not fi.rel.startswith(prefixes):
+            continue
+        for tr in nodes(fi, ast.Try):
+            for h in tr.handlers:
+                types = [norm(x) for x in (h.type.elts if isinstance(h.type, ast.Tuple) else [h.type])] if h.type is not None else ["<bare>"]
+                if any(t.split(".")[-1] == error for t in types):
+                    bad.append((fi, h, f"handler for {error}"))
+                body_calls = [c for st in tr.body for c in ast.walk(st) if isinstance(c, ast.Call) and norm(c.func).split(".")[-1] in constructors]
+                if body_calls and any(t in ("<bare>", "Exception", "BaseException", "ValueError") for t in types):
+                    bad.append((fi, h, f"broad handler around {norm(body_calls[0].func)}"))
+        n += len([c for c in calls(fi) if norm(c.func).split(".")[-1] in constructors])
+    for fi, h, why in bad:
+        ctx.ob(rule, f"{fi.short}/refusal-reaches-caller", False, fi, h,
+               f"{error} is the documented refusal of an ambiguous alignment; catching it (to fall back, warn or retry) turns the refusal into a "
+               "silently different analysis", [why], construct=short(h, 90))
+    ctx.ob(rule, "package/refusal-not-caught", not bad, None, ctx.repo.module("glotaran/optimization/data_provider.py").tree,
+           f"no handler in the package catches {error} or wraps the construction of the linked data provider", construct=f"{len(bad)} handlers")
+    ctx.sites(rule, "constructions of the linked data provider", n, 1)
